@@ -177,6 +177,34 @@ def check_case(ctx, cfg, seed):
             impl += f' r{r}:part={",".join(part)}:restores={",".join(rest)}'
         mo_cmp = mo.split(' save=')[0]
         ctx.compare('neox-ckpt-bookkeeping', case, mo_cmp, impl)
+        # value level (KV.NeoxL.mergedVal / loadVal): whose value the state holds for every key, and what every (rank, layer)
+        # holds after the load — provenance read off the real tensors (bitwise), "n@r" = what rank r held for n at the save
+        if ' vals=' in mo and ' after=' in mo:
+            mo_vals = mo.split(' vals=')[1].split(' after=')[0]
+            mo_after = mo.split(' after=')[1]
+            at_save = {}
+            for r in range(W_):
+                for l, n_ in enumerate(rr.res[r]['names']):
+                    at_save[(r, n_)] = rr.res[r]['ops'][last_s]['factors'][l]
+
+            def prov(n_, A, G):
+                cands = [inv.get(n_)] + [r for r in range(W_) if r != inv.get(n_)]
+                for r in cands:
+                    h = at_save.get((r, n_))
+                    if h is not None and isinstance(h[0], torch.Tensor) and isinstance(A, torch.Tensor) and h[0].shape == A.shape \
+                            and torch.equal(h[0], A) and torch.equal(h[1], G):
+                        return f'{n_}@{r}'
+                return f'{n_}@?'
+            if rec0.get('state_layers') is not None:
+                for r in range(W_):
+                    got = rr.res[r]['ops'][ci]['state_layers'] or {}
+                    ctx.compare('neox-ckpt-values', dict(case, rank=r), mo_vals, ','.join(prov(k, *got[k]) for k in sorted(got)))
+            if cfg.ops[ci] in ('l1', 'l0'):
+                rows = []
+                for r in range(W_):
+                    rec = rr.res[r]['ops'][ci]
+                    rows.append(','.join(f'{n_}@{r}~' if h[0] is None else prov(n_, h[0], h[1]) for n_, h in zip(rr.res[r]['names'], rec['held'])))
+                ctx.compare('neox-ckpt-after-load', case, mo_after, ';'.join(rows))
     ctx.case(str(case), nontrivial=cfg.world >= 2, sample=case if cfg.world <= 4 else None)
     ctx.count(f'mp{cfg.mp}')
     ctx.count('dir' if cfg.ckpt_dir else 'memory')
